@@ -170,6 +170,20 @@ def run(ck):
                   "the handler for %s completes normally: the malformed value that raised it is accepted as if the attribute were absent" % hb.label.get("type"))
     ck.note("C17-R1: %d catch handler(s) in cookie.cc" % nh)
 
+    # cookie names and values are compared exactly: the jar's two map levels use the default hash and equality of std::string (a
+    # case-insensitive key type would merge `sid` and `SID`, which are different cookies, and answer has()/get() for names the header
+    # never listed)
+    jar = prog.cls(H + "CookieJar")
+    jf = [x for x in jar["fields"] if "unordered_map" in (x.get("ctype") or x["type"]) or "map<" in (x.get("ctype") or x["type"])]
+    ck.require(jf, "CookieJar has no map member")
+    for x in jf:
+        ct = (x.get("ctype") or x["type"]).replace(" ", "")
+        # std::unordered_map<K, V> with the defaults prints with exactly two template arguments at each level
+        custom = bool(re.search(r"Lowercase|Hash|Equal|Compare|less<|greater<", ct))
+        ck.ob("C17-R3", "type:CookieJar::%s/exact-keys" % x["name"], not custom, "%s:%s" % (jar["file"], x.get("line") or 0), "",
+              "declared %s" % ct[:120] if not custom else
+              "CookieJar::%s is declared %s: names (or values) that differ are treated as the same key" % (x["name"], ct[:160]), nontrivial=False)
+
     # ---------------- facts shared with C03 ----------------
     ck.borrow("C03", ["C03-R8"], "C17-R4",
               "malformed cookie text ends in an error, never in a parser that spins: every iteration of the attribute loop of Cookie::fromRaw "
